@@ -12,6 +12,14 @@ Scenario = list of operations (tokens, all numbers hex):
                                                  on a scope: checkExpectations() with a reporter that records and returns, then clear());
                                                  every failure it delivers is observed
   :s <n> <op>                                    the operation is made on the named scope mock("s<n>") instead of mock()
+  obj: ~ = no onObject at all; 0 = onObject(NULLPTR), an expectation on / a call on the null object; other = that address
+A RUN of several tests (scenario starts with :T):  (:T step*)+   step ::= <op> (not :post) | :ok | :bad
+                                                 each :T is one test of a private TestRegistry with the real MockSupportPlugin installed,
+                                                 run by runAllTests with ONE TestResult; :ok / :bad = a check of the test's own that
+                                                 passes / fails (FAIL leaves the test); mock failures go to the library's default
+                                                 reporter (fails the current test and leaves it); the end-of-test check is the plugin's
+Observation of a run: :run n (<own 0|1> <TestResult::getFailureCount() when the test ended> <observation as below, fail index = index
+                                                 among the mock operations of the body, nPost = what the plugin's check delivered>)*
   value ::= :b 0|1 | :i <ty 0..5> <z> | :s $bytes | :p <addr>
 Observation: <fail: ~ | opindex :kind a b  nUnf (exp act)*  nFul (exp act)*>  nRets (<:n | value>)*  nOuts ($bytes)*  nLeft (0|1)*
              nPost (:kind a b  nUnf (exp act)*  nFul (exp act)*)*
@@ -45,10 +53,22 @@ RULE = ("expectation sets of 1-6 expectations over 1-3 function names, 0-3 param
         "function with ignoreOtherParameters, 1-2 output parameters with their own bytes, distinct return values, 0-1 distinguishing "
         "input; each call passes the expected items plus 1-2 ignored output / input parameters (and optionally an object) in every "
         "order (<= 4 items) or sampled orders, return value asked for; also mixed with expectations that do not ignore. "
+        "The object as a value: the object pool contains the null object (onObject(NULLPTR)); grid expected object {null, none, A} x "
+        "object of the call {null, none, A, B} x 6 shapes (bare, return value, parameters, output, count 2, both) on mock() or a scope, "
+        "ended by the explicit check or the plugin's; two expectations on one function that differ only by the object, one of them "
+        "the null object, calls in both orders with one call redirected (other object, no object, third object, both on one). "
+        "Runs of 2-5 tests with the real MockSupportPlugin installed and ONE TestResult: grid of what the earlier test did (own check "
+        "fails before / between / after its mock operations, mock failure in the body, failed by the plugin for an unfulfilled "
+        "expectation / calls out of order / incomplete last call / surplus call, passed) x what the later test needs (passes, to be "
+        "failed by the plugin in each way, fails on its own), the later test on the same or other function names, optionally a passing "
+        "test in front or a test in between; a test cut by a failing check at every position followed by the complete test; bare "
+        "failing test in front of every kind; empty tests; random runs. "
         "non-trivial = at least one expectation and one actual call")
 ASSUMPTIONS = ["LP64 data model", "function and parameter names are distinct non-empty strings without special characters",
                "no custom types / comparators / copiers (..OfType), tracing off, scopes one level deep (mock(\"name\"))",
-               "output data of at most 8 bytes into caller buffers of 8 bytes"]
+               "output data of at most 8 bytes into caller buffers of 8 bytes",
+               "runs: tests of one private TestRegistry run in the current process by TestRegistry::runAllTests, MockSupportPlugin the only "
+               "plugin, a test's own check fails through FAIL (the test is left), no explicit :post inside a test of a run"]
 
 VALUES = [":b 0", ":b 1", ":i 0 1", ":i 1 1", ":i 0 2", ":i 2 -1", ":i 3 ffffffffffffffff", ":i 4 -8000000000000000", ":i 5 2",
           ":s " + tb(b"a"), ":s " + tb(b"b"), ":s " + tb(b""), ":p 1000", ":p 1008", ":i 0 -1"]
@@ -176,7 +196,7 @@ def orders(rng, calls, limit):
     return out
 
 
-OBJS = [0x1000, 0x1008, 0x2000]
+OBJS = [0x1000, 0x1008, 0x2000, 0]        # 0 = the null object: onObject(NULLPTR)
 
 
 def outs_tok(outs):
@@ -261,7 +281,7 @@ def matching_callsx(rng, exps, shuffle=True):
     return calls
 
 
-XMUT = ["drop", "dup", "swap", "extra_unknown", "drop_obj", "wrong_obj", "other_obj", "dup_obj", "add_obj", "extra_out", "wrong_out", "missing_out",
+XMUT = ["drop", "dup", "swap", "extra_unknown", "drop_obj", "wrong_obj", "other_obj", "null_obj", "dup_obj", "add_obj", "extra_out", "wrong_out", "missing_out",
         "wrong_value", "missing_in", "extra_in", "reorder"]
 
 
@@ -287,6 +307,9 @@ def mutatex(rng, calls, kind, pos):
     elif kind == "wrong_obj":
         for i in idx("obj")[:1]:
             its[i] = ("obj", 0x3000)
+    elif kind == "null_obj":     # the call is made on the null object instead / on a real object instead of the null object
+        for i in idx("obj")[:1]:
+            its[i] = ("obj", 0 if its[i][1] != 0 else rng.choice(OBJS[:3]))
     elif kind == "other_obj":
         for i in idx("obj")[:1]:
             its[i] = ("obj", rng.choice([o for o in OBJS if o != its[i][1]]))
@@ -574,6 +597,171 @@ def gen_ign_outs(rng, tier, out):
                 rng.shuffle(calls)
                 out.append(join(etoks + [in_scope(s, callx_tok(c)) for c in calls] + [rng.choice([":chk", ":chk", ":post"])]))
 
+def gen_null_object(rng, tier, out):
+    """The object of a call as a value: expectations on the null object / on no object / on a real object against calls on the null
+    object / on no object / on that object / on another one -- alone, with parameters and outputs around it, twice, in a scope."""
+    A, B = 0x1000, 0x1008
+    reps = 1 if tier == "quick" else 12
+    for _ in range(reps):
+        for eobj in (0, None, A):
+            for aobj in (0, None, A, B):
+                for shape in range(6):
+                    f = rng.randrange(2)
+                    ps = [(n, rng.choice(VALUES)) for n in rng.sample(range(3), 0 if shape < 2 else rng.choice([1, 2]))]
+                    outs = [(0, rbytes(rng, rng.choice([1, 4, 8])))] if shape in (3, 5) else []
+                    ret = rng.choice(RETS) if shape % 2 else None
+                    n = 2 if shape == 4 else 1
+                    e = (n, f, ps, outs, eobj, ret, False)
+                    its = [("in", p, v) for p, v in ps] + [("out", o, filler(rng)) for o, _ in outs]
+                    if aobj is not None:
+                        its.insert(rng.randrange(len(its) + 1), ("obj", aobj))
+                    calls = [(f, list(its), rng.random() < 0.5) for _ in range(n)]
+                    sc = rng.choice([0, 0, 1])
+                    tail = rng.choice([":chk", ":chk", ":post"])
+                    out.append(join([in_scope(sc, expx_tok(e))] + [in_scope(sc, callx_tok(c)) for c in calls] + [tail]))
+        # two expectations on one function that differ only by the object, one of them the null object: calls in both orders, one
+        # of them redirected to the other object / to no object / to a third one
+        for other in (A, None):
+            for order in (0, 1):
+                for redirect in (None, "swap", "drop", "third", "both_null", "both_other"):
+                    f = rng.randrange(2)
+                    ps = [(0, rng.choice(VALUES))] if rng.random() < 0.5 else []
+                    r0, r1 = rng.sample(RETS, 2)
+                    exps = [(1, f, ps, [], 0, r0, False), (1, f, ps, [], other, r1, False)]
+                    objs = [0, other]
+                    if redirect == "swap":
+                        objs = [other, 0]
+                    elif redirect == "drop":
+                        objs = [None, other]
+                    elif redirect == "third":
+                        objs = [B, other]
+                    elif redirect == "both_null":
+                        objs = [0, 0]
+                    elif redirect == "both_other":
+                        objs = [other, other]
+                    calls = []
+                    for ob in objs:
+                        its = [("in", p, v) for p, v in ps]
+                        if ob is not None:
+                            its.insert(rng.randrange(len(its) + 1), ("obj", ob))
+                        calls.append((f, its, True))
+                    if order:
+                        exps.reverse()
+                    if rng.random() < 0.5:
+                        calls.reverse()
+                    out.append(scenx([":strict"] if rng.random() < 0.25 else [], exps, calls, (rng.choice([":chk", ":post"]),)))
+
+
+BODY_KINDS = ["pass", "unfulfilled", "midfail", "ooo", "incomplete", "surplus", "incomplete2"]
+
+
+def test_body(rng, kind, fbase=0, scope=None):
+    """The mock operations of one test (no check at the end: the plugin makes it), as token strings.
+    pass: calls match; unfulfilled: one call missing; midfail: a call that deviates at once; ooo: strict order, two calls swapped;
+    incomplete: the last call lacks a parameter and nobody asks for its value; surplus: one call too many at the end;
+    incomplete2: an incomplete last call on mock() and one on a scope (the plugin delivers two failures)."""
+    if kind == "incomplete2":
+        a = test_body(rng, "incomplete", fbase, 0)
+        b = test_body(rng, "incomplete", fbase, rng.choice([1, 2]))
+        return interleave(rng, [a, b]) if rng.random() < 0.5 else a + b
+    nfun = rng.choice([1, 2])
+    exps = [(max(n, 1), f + fbase, ps, ret, ign) for (n, f, ps, ret, ign) in gen_exps(rng, rng.choice([1, 1, 2, 3]), nfun)]
+    if kind == "incomplete" and not any(e[2] for e in exps):
+        exps[0] = (exps[0][0], exps[0][1], [(0, rng.choice(VALUES))], exps[0][3], False)
+    if kind == "ooo":
+        exps = [(1, fbase, [(0, VALUES[2])], None, False), (1, fbase + 1 if rng.random() < 0.5 else fbase, [(0, VALUES[4])], None, False)] + \
+               ([(1, fbase + 2, [], None, False)] if rng.random() < 0.4 else [])
+    calls = matching_calls(rng, exps, shuffle_params=True)
+    pre = [":strict"] if (kind == "ooo" or rng.random() < 0.15) else []
+    strict = bool(pre)
+    if not strict:
+        rng.shuffle(calls)
+    if kind == "unfulfilled" and calls:
+        del calls[rng.randrange(len(calls))]
+    elif kind == "midfail":
+        calls = mutate(rng, calls, rng.choice(["extra_unknown", "wrong_value", "wrong_name", "extra_param", "extra_unknown"]),
+                       rng.randrange(len(calls) + 1), nfun)
+        if not strict and rng.random() < 0.5:
+            calls = calls + [(7, [], False)]
+    elif kind == "ooo":
+        calls[0], calls[1] = calls[1], calls[0]
+    elif kind == "incomplete":
+        idx = [i for i, c in enumerate(calls) if c[1]]
+        i = idx[-1]
+        c = calls.pop(i)
+        q = list(c[1])
+        del q[rng.randrange(len(q))]
+        calls.append((c[0], q, False))
+    elif kind == "surplus" and calls:
+        calls.append(calls[rng.randrange(len(calls))])
+    toks = pre + [exp_tok(e) for e in exps] + [call_tok(c) for c in calls]
+    if scope is None:
+        scope = rng.choice([1, 2]) if rng.random() < 0.25 else 0      # the test on a named scope
+    if scope:
+        toks = [in_scope(scope, t) for t in toks]
+    return toks
+
+
+def with_checks(rng, toks, bad):
+    """own checks of the test sprinkled over its operations; bad: where the failing one goes (None | "first" | "mid" | "last")"""
+    t = list(toks)
+    if bad == "first":
+        t.insert(0, ":bad")
+    elif bad == "last":
+        t.append(":bad")
+    elif bad == "mid":
+        t.insert(rng.randrange(len(t) + 1), ":bad")
+    for _ in range(rng.choice([0, 0, 1, 2])):
+        t.insert(rng.randrange(len(t) + 1), ":ok")
+    return t
+
+
+def run_tok(tests):
+    return " ".join(join([":T"] + list(t)) for t in tests)
+
+
+def gen_runs(rng, tier, out):
+    """Runs of 2-5 tests sharing one TestResult, the MockSupportPlugin installed.  Grid: what the EARLIER test did (failed on its own
+    check before / between / after its mock operations, failed on a mock failure, was failed by the plugin (unfulfilled, out of
+    order, incomplete last call, surplus call), passed) x what the LATER test needs (passes, must be failed by the plugin in each of
+    these ways, fails on its own) -- the later test also expecting the same functions as the earlier one left unfulfilled."""
+    firsts = [("pass", None), ("pass", "first"), ("pass", "mid"), ("pass", "last"), ("unfulfilled", "mid"), ("midfail", None),
+              ("unfulfilled", None), ("ooo", None), ("incomplete", None), ("surplus", None), ("incomplete", "last"), ("midfail", "last")]
+    seconds = [("pass", None), ("unfulfilled", None), ("ooo", None), ("incomplete", None), ("surplus", None), ("midfail", None),
+               ("unfulfilled", "last"), ("pass", "mid"), ("incomplete2", None)]
+    reps = 2 if tier == "quick" else 30
+    for _ in range(reps):
+        for (k1, b1) in firsts:
+            for (k2, b2) in seconds:
+                t1 = with_checks(rng, test_body(rng, k1), b1)
+                fb = 0 if rng.random() < 0.6 else 4          # same function names as the earlier test / other ones
+                t2 = with_checks(rng, test_body(rng, k2, fb), b2)
+                tests = [t1, t2]
+                r = rng.random()
+                if r < 0.3:      # a test that passes in front, so that the failing one is not the first of the run
+                    tests.insert(0, with_checks(rng, test_body(rng, "pass"), None))
+                elif r < 0.5:    # the interesting test comes third: one more test in between
+                    tests.insert(1, with_checks(rng, test_body(rng, rng.choice(BODY_KINDS)), rng.choice([None, None, "mid"])))
+                if rng.random() < 0.3:
+                    tests.append(with_checks(rng, test_body(rng, rng.choice(BODY_KINDS)), rng.choice([None, None, "last"])))
+                out.append(run_tok(tests))
+                if tier == "quick" and (k1, b1) in (("pass", "first"), ("midfail", None), ("unfulfilled", None)):
+                    out.append(run_tok([t1, t2, t2]))           # the same test twice after the failure
+    # the earlier test leaves EXACTLY the expectations the later one fulfils / a bare failing check in front of every kind
+    for _ in range(40 if tier == "quick" else 1500):
+        body = test_body(rng, "pass")
+        k = rng.randrange(len(body) + 1)
+        left = with_checks(rng, body, None)
+        cut = body[:k] + [":bad"] + body[k:]
+        out.append(run_tok([cut, left]))
+        out.append(run_tok([[":bad"], with_checks(rng, test_body(rng, rng.choice(BODY_KINDS)), None)]))
+        out.append(run_tok([[":ok"], [], with_checks(rng, test_body(rng, rng.choice(BODY_KINDS)), None), [":bad"], left]))
+    # longer random runs
+    for _ in range(60 if tier == "quick" else 3000):
+        n = rng.choice([3, 4, 5])
+        out.append(run_tok([with_checks(rng, test_body(rng, rng.choice(BODY_KINDS)), rng.choice([None, None, None, "first", "mid", "last"]))
+                            for _ in range(n)]))
+
 
 def generate(tier, rng):
     out = []
@@ -626,6 +814,8 @@ def generate(tier, rng):
     out += extra
     gen_post(rng, tier, out)
     gen_ign_outs(rng, tier, out)
+    gen_null_object(rng, tier, out)
+    gen_runs(rng, tier, out)
     return out
 
 
@@ -633,7 +823,31 @@ def toks(s):
     return s.split()
 
 
-OPS0 = (":chk", ":clr", ":strict", ":ign", ":en", ":dis", ":left", ":post")
+OPS0 = (":chk", ":clr", ":strict", ":ign", ":en", ":dis", ":left", ":post", ":ok", ":bad")
+
+
+def is_run(s):
+    return s.startswith(":T")
+
+
+def split_run(s):
+    """-> the token strings of the tests of a run"""
+    tests, cur = [], None
+    for tk in toks(s):
+        if tk == ":T":
+            cur = []
+            tests.append(cur)
+        else:
+            cur.append(tk)
+    return [" ".join(t) for t in tests]
+
+
+def parse_run(s):
+    return [parse_ops(t) for t in split_run(s)]
+
+
+def emit_run(tests):
+    return " ".join((":T " + emit_ops(t)).strip() for t in tests)
 
 
 def read_value(t, i):
@@ -643,8 +857,8 @@ def read_value(t, i):
 
 
 def parse_ops(s):
-    """-> list of (scope, op) with op = ("E", count, f, inputs, outs, obj, ret, ign) | ("C", f, items, want) | (":chk",) ..."""
-    t = toks(s)
+    """(of a run: all its tests' steps in one list) -> list of (scope, op) with op = ("E", count, f, inputs, outs, obj, ret, ign) | ("C", f, items, want) | (":chk",) ..."""
+    t = [x for x in toks(s) if x != ":T"]
     i = 0
     ops = []
     while i < len(t):
@@ -752,6 +966,18 @@ def classify(s):
         labs.append("disable")
     if ":post" in t:
         labs.append("plugin-end-of-test")
+    if is_run(s):
+        labs.append("run-of-tests")
+        labs.append("tests=%d" % min(t.count(":T"), 5))
+        if ":bad" in t:
+            labs.append("own-check-fails")
+        if ":obj" in t and any(o[0] == "E" and o[5] == 0 for _, o in parse_ops(s)):
+            labs.append("null-object-expected")
+        return labs
+    if any(o[0] == "E" and o[5] == 0 for _, o in parse_ops(s)):
+        labs.append("null-object-expected")
+    if any(o[0] == "C" and any(it[0] == "obj" and it[1] == 0 for it in o[2]) for _, o in parse_ops(s)):
+        labs.append("call-on-null-object")
     if any(o[0] == "E" and o[7] for _, o in parse_ops(s)):
         labs.append("ignoreOtherParameters")
     if t.count(":chk") + t.count(":post") != 1 or t[-1] not in (":chk", ":post") or ":left" in t or ":dis" in t or ":en" in t:
@@ -759,7 +985,54 @@ def classify(s):
     return labs
 
 
+def run_status(o):
+    """per test of a run's observation: own | mock | post=<n> | pass"""
+    ot = o.split()
+    res = []
+    try:
+        n = int(ot[1], 16)
+        i = 2
+        for _ in range(n):
+            own = ot[i] == "1"
+            i += 2
+            failed = ot[i] != "~"
+            j, posts = skip_obs(ot, i)
+            i = j
+            res.append("own" if own else "mock" if failed else ("post=%d" % posts if posts else "pass"))
+    except Exception:
+        res.append("?")
+    return res
+
+
+def skip_fail(ot, i):
+    """index after one failure (kind a b nUnf pairs nFul pairs) starting at ot[i]"""
+    i += 3
+    n = int(ot[i], 16); i += 1 + 2 * n
+    n = int(ot[i], 16); i += 1 + 2 * n
+    return i
+
+
+def skip_obs(ot, i):
+    """-> (index after the observation that starts at ot[i], number of end-of-test failures in it)"""
+    if ot[i] == "~":
+        i += 1
+    else:
+        i = skip_fail(ot, i + 1)
+    n = int(ot[i], 16); i += 1
+    for _ in range(n):
+        i += 1 if ot[i] == ":n" else (3 if ot[i] == ":i" else 2)
+    n = int(ot[i], 16); i += 1 + n
+    n = int(ot[i], 16); i += 1 + n
+    posts = int(ot[i], 16); i += 1
+    for _ in range(posts):
+        i = skip_fail(ot, i)
+    return i, posts
+
+
 def signature(s, o):
+    if is_run(s):
+        st = run_status(o)
+        return "run %s%s" % ("own-check " if ":bad" in toks(s) else "", ",".join(sorted(set(st))))
     ot = o.split()
     kind = "pass" if ot and ot[0] == "~" else (ot[1] if len(ot) > 1 else "?")
     t = toks(s)
@@ -784,7 +1057,25 @@ def post_count(ot):
         return None
 
 
+def shrink_run(s):
+    tests = parse_run(s)
+    for i in range(len(tests)):
+        if len(tests) > 1:
+            yield emit_run(tests[:i] + tests[i + 1:])
+    for i, t in enumerate(tests):
+        if not t:
+            continue
+        for cand in shrink(emit_ops(t)):
+            yield emit_run(tests[:i] + [parse_ops(cand)] + tests[i + 1:])
+        if len(t) == 1:
+            yield emit_run(tests[:i] + [[]] + tests[i + 1:])
+
+
 def shrink(s):
+    if is_run(s):
+        for c in shrink_run(s):
+            yield c
+        return
     ops = parse_ops(s)
     for i in range(len(ops)):
         if len(ops) > 1:
@@ -815,7 +1106,8 @@ def shrink(s):
 
 LEVEL_TEXT = ("Machine-checked (Coq) theorems over an executable model of the mock matching machinery (expectation flags and counters, "
               "candidate pruning, call finalisation, output-parameter copying, end-of-test verdict through checkExpectations() and through "
-              "MockSupportPlugin's recording reporter, failure selection), tied to the real code by a differential run "
+              "MockSupportPlugin's recording reporter, failure selection; a run of several tests sharing one TestResult with the plugin "
+              "installed: body, hasFailed flag, post action, clear, the run's failure counter), tied to the real code by a differential run "
               "of the extracted model against mock() on generated scenarios (all permutations + one mutation per position), with the "
               "extracted model-free spec evaluated on the implementation's observations.")
 LEVEL_NOTE = ("Trusted: Coq kernel, extraction, harness and generators. Modelled not verified: the C++ itself. Theorems cover canonical scenarios "
@@ -824,7 +1116,10 @@ LEVEL_NOTE = ("Trusted: Coq kernel, extraction, harness and generators. Modelled
               "every scope; the same scenarios ending with the plugin's end-of-test check (the list of failures it delivers: each "
               "incomplete last call once, never 'not fulfilled' on top, exactly one failure when one deviation); and for EVERY scenario "
               "(ignoreOtherParameters, ambiguous sets, names passed twice, any operations) that the return value and the output bytes a "
-              "call hands back are those of one declared expectation of that function and scope (proved of the model for all states). "
+              "call hands back are those of one declared expectation of that function and scope (proved of the model for all states); "
+              "a run of tests with the plugin installed: every test whose own checks pass is that single scenario on a new mock whatever "
+              "the earlier tests did (the run's observation is the list of its tests' own observations, failure counter summed), a test "
+              "left at its own failing check fails exactly once, every failure is counted once; the null object is an object. "
               "Which expectation is consumed and the diagnoses under ignoreOtherParameters, object-less expectations called on an object, "
               "a parameter name or object passed twice, intermediate check/clear/expectedCallsLeft, enable/disable: model = implementation "
               "agreement only. Not modelled: custom comparators/copiers, tracing, nested scopes.")
